@@ -126,9 +126,9 @@ def run_leg(prop, leg, tier, seed, workdir):
         return exe, None, time.time() - t0
     return exe, json.load(open(out)), time.time() - t0
 
-def replay_violation(exe, leg, v, workdir):
+def replay_violation(exe, leg, v, workdir, tier="quick"):
     """re-executes one violation alone; returns (reproduced, kind, sig, detail, stderr)"""
-    cmd = [exe] + list(v.get("replay_args") or [])
+    cmd = [exe] + list(v.get("leg_args") or leg.args[tier]) + list(v.get("replay_args") or [])
     if not v.get("replay_args"):
         cmd += ["--replay-start", str(v.get("start", 0)), "--replay-ops", ";".join(v["ops"])]
     cmd += ["--budget-scale", "10"]
@@ -162,15 +162,19 @@ def check(prop_id, tier="quick", seed=0):
             cov = {k: v for k, v in res.items() if k not in ("violations",)}
             cov["leg"] = leg.name; cov["variant"] = leg.variant; cov["harness_wall_s"] = round(secs, 2)
             ev_legs.append(cov)
-            tot["states"] += int(res.get("states", 0)); tot["transitions"] += int(res.get("transitions", 0))
+            if res.get("engine") == "enum":
+                # reference-model checks driven by enumeration: one explored trace per case
+                tot["states"] += int(res.get("distinct_nontrivial", 0)); tot["transitions"] += int(res.get("evaluations", 0))
+            else:
+                tot["states"] += int(res.get("states", 0)); tot["transitions"] += int(res.get("transitions", 0))
             tot["evaluations"] += int(res.get("evaluations", res.get("transitions", 0)))
             tot["distinct"] += int(res.get("distinct_nontrivial", res.get("states", 0)))
             if not res.get("exhaustive", True): exhaustive = False
             for s in res.get("samples", [])[:3]: samples.append({"leg": leg.name, "case": s})
             for v in res.get("violations", []):
-                ok, kind, sig, detail, err = replay_violation(exe, leg, v, workdir)
+                ok, kind, sig, detail, err = replay_violation(exe, leg, v, workdir, tier)
                 if not ok:
-                    ok, kind, sig, detail, err = replay_violation(exe, leg, v, workdir)
+                    ok, kind, sig, detail, err = replay_violation(exe, leg, v, workdir, tier)
                 if not ok:
                     unconfirmed.append({"leg": leg.name, "sig": v.get("sig"), "kind": v.get("kind"), "ops": v.get("ops"), "replay": kind})
                     continue
@@ -179,7 +183,7 @@ def check(prop_id, tier="quick", seed=0):
                 rp = os.path.join(replay_dir, hashlib.sha1(signature.encode()).hexdigest()[:16] + ".json")
                 rec = {"property": prop_id, "leg": leg.name, "variant": leg.variant, "sources": leg.sources, "signature": signature,
                        "kind": kind, "start": v.get("start", 0), "start_name": v.get("start_name"), "ops": v.get("ops"),
-                       "replay_args": v.get("replay_args"), "input_hex": v.get("input_hex"),
+                       "replay_args": v.get("replay_args"), "leg_args": list(leg.args[tier]), "input_hex": v.get("input_hex"),
                        "detail": detail[:4000], "stderr_tail": err[-6000:], "count_in_run": v.get("count", 1)}
                 json.dump(rec, open(rp, "w"), indent=1)
                 f = match_finding(findings, prop_id, signature)
@@ -191,7 +195,9 @@ def check(prop_id, tier="quick", seed=0):
     level = P["level"]
     coverage = {"exhaustive": exhaustive, "legs": ev_legs, "samples": samples or [{"note": "no sample produced"}]}
     if level == "model_checking":
-        coverage.update({"states": tot["states"], "transitions": tot["transitions"], "traces_validated_against_impl": tot["transitions"]})
+        coverage.update({"states": tot["states"], "transitions": tot["transitions"], "traces_validated_against_impl": tot["transitions"],
+                         "explanation": "for mcx legs: states/transitions of the explicit-state search, every transition executed on the implementation; for enumeration legs driven by a reference model: "
+                                        "states = distinct cases whose complete trace was compared, transitions = cases executed on the implementation"})
     coverage.update({"evaluations": max(tot["evaluations"], 0), "distinct_nontrivial": tot["distinct"], "rule": P["rule"]})
     coverage["known_findings_seen"] = [s for _, s, _ in known]
     coverage["unconfirmed_on_replay"] = unconfirmed
